@@ -1,58 +1,103 @@
 """Configuration of ./check for C10 (see tools/props.py)."""
 ENTRY = {'coq_dir': 'C10',
  'harness': 'c10',
- 'cases': {'quick': 300, 'thorough': 2500},
+ 'cases': {'quick': 320, 'thorough': 2500},
  'consts': ['MAX_ADDRESSES',
             'SCORE_CONNECTION_ESTABLISHED',
             'SCORE_CONNECTION_FAILURE_NEG',
             'SCORE_ADDRESS_FAILURE_NEG',
-            'SCORE_PUBLIC_ADDRESS_BONUS'],
- 'rule': 'seeded random cases: a configuration (installed scripted transports tcp/ws, max_outgoing_connections none or 0..8) and a history of 6-220 '
-         '(quick) / 50-400 (thorough) operations over <=8 peers on real Multiaddrs built from abstract shapes (ip4/ip6 of class '
-         'unspecified/loopback/private/global, dns/dns4/dns6, tcp/udp, ws/wss/quic-v1, right/foreign/missing/duplicate /p2p, '
-         'inserted/deleted/swapped/trailing components): register_listen_address (at the start and in between), add_known_address with one or '
-         "several addresses (evictions included), dial failures (connection and address errors) and established connections through the manager's "
-         'update functions, AddressStore::addresses(limit), stateless probes (supported_transport, routing, TCP and WebSocket '
-         'multiaddr_to_socket_address), holding 0..8 established outbound connections to other peers, and whole TransportManager::dial(peer) '
-         'episodes on scripted transports: the address lists handed to the TCP and WebSocket open() are recorded, then either every attempt times '
-         'out (OpenFailure on each transport) or one attempt succeeds after the earlier ones on its transport timed out (ConnectionOpened with '
-         "errors, ConnectionEstablished, accept, close); half of the long cases push >64 distinct addresses into one peer's store. After every "
-         'operation the result and the full sorted (address, score) dump of the touched store are compared with the extracted Coq model; the '
-         "implementation's own choices (HashSet insertion order of a multi-address add, evicted records as logged by AddressStore::insert, order "
-         'among equal scores, lists given to open()) are inputs that the model validates. A case is non-trivial when its trace has >= 8 numbers; '
-         'distinct = distinct (case, trace) pairs',
+            'SCORE_PUBLIC_ADDRESS_BONUS',
+            'C10_DIAL_ERROR_LEAVES',
+            'C10_ERROR_SCORE_ARMS',
+            'C10_STORE_SITES'],
+ 'rule': 'every run starts with 43 systematic cases: (failure or success path: update_address_on_dial_failure, dial_address + DialFailure event, '
+         'dial(peer) + OpenFailure events, dial(peer) + ConnectionOpened with errors, update_address_on_connection_established, dial_address + '
+         'ConnectionEstablished) x (score of the address beforehand: untested private 0, untested global +1, established 100, failed -100, banned '
+         'i32::MIN, raw +7, raw -7), each over EVERY constructible DialError variant (23 with the harness features: Timeout, 5 AddressError, 2 '
+         'DnsError, 15 NegotiationError incl. the 6 ParseError kinds and WebSocket; values built by an exhaustive, wildcard-free table in the '
+         'harness) on one stored address per variant, followed by a rediscovery of all addresses and the dial order; plus a saturation case (raw '
+         'AddressStore inserts of i32::MIN, MIN+1, -100, -1, 0, 1, 100, MAX-1, MAX on new global and private addresses, then overwritten, failed, '
+         'established, rediscovered). Then seeded random cases: a configuration (installed scripted transports tcp/ws, max_outgoing_connections none '
+         'or 0..8) and a history of 6-220 (quick) / 50-400 (thorough) operations over <=8 peers on real Multiaddrs built from abstract shapes '
+         '(ip4/ip6 of class unspecified/loopback/private/global, dns/dns4/dns6, tcp/udp, ws/wss/quic-v1, right/foreign/missing/duplicate /p2p, '
+         'inserted/deleted/swapped/trailing components): register_listen_address (at the start and in between; the stored listen set is dumped), '
+         'add_known_address with one or several addresses (evictions included), dial failures of a random kind and established connections through '
+         "the manager's update functions, raw AddressStore inserts with scores from the whole i32 range (ends, neighbourhood of the constants, "
+         'random), AddressStore::addresses(limit), stateless probes (supported_transport, routing, TCP and WebSocket multiaddr_to_socket_address), '
+         'holding 0..8 established outbound connections to other peers, whole TransportManager::dial(peer) episodes on scripted transports (the '
+         'address lists handed to the TCP and WebSocket open() are recorded, then either every attempt fails (OpenFailure on each transport) or one '
+         'attempt succeeds after the earlier ones on its transport failed (ConnectionOpened with errors, ConnectionEstablished, accept, close); '
+         'attempt i fails with kind errs[i mod |errs|] of a random list of kinds), whole TransportManager::dial_address episodes (stored / fresh / '
+         'arbitrary shapes / registered listen addresses under the local or another peer id; then a DialFailure event of a random kind or '
+         'ConnectionEstablished + accept + close), PublicAddresses add/remove (with, without, foreign peer id, empty); half of the long cases push '
+         ">64 distinct addresses into one peer's store. After every operation the result and the full sorted (address, score) dump of the touched "
+         "store (listen set / public set) are compared with the extracted Coq model; the implementation's own choices (HashSet insertion order of a "
+         'multi-address add, evicted records as logged by AddressStore::insert, order among equal scores, lists given to open()) are inputs that the '
+         'model validates. A case is non-trivial when its trace has >= 8 numbers; distinct = distinct (case, trace) pairs',
  'trusted_base': ['abstract multiaddress grammar: IPs are a class (unspecified/loopback/private/global) plus an id; the harness maps classes to real '
                   "ranges (127.1/16, 10.7/16, 8.8/16, ::, ::1, fd00::7:x, 2001:4860::x) so ip_network's is_global and std's "
                   'is_loopback/is_unspecified are exercised, but only on these ranges',
                   'a /p2p component always carries a valid peer id (type Protocol::P2p(PeerId) of multiaddr 0.18)',
-                  'the harness is built with litep2p features verif+websocket; quic is compiled out: the QUIC branch of supported_transport, the '
-                  'QUIC routing and quic::listener::get_socket_address are modelled and covered by the theorems but not exercised against the code',
-                  "dial(peer) is driven end to end on the in-crate scripted transports (verif.rs); the harness does not call it when the peer's "
-                  'store holds an address of a transport that is not installed or one that does not name the peer (reachable only through ill-formed '
-                  "dial results; the manager would wedge the peer in Opening, which is C05's subject) - model and harness apply the same guard; "
-                  'every episode is driven to completion so that the peer is Disconnected again (asserted by the harness)',
+                  'the harness is built with litep2p features verif+websocket; quic is compiled out: the QUIC branch of supported_transport / '
+                  'dial_address, the QUIC routing, quic::listener::get_socket_address and NegotiationError::Quic(_) are modelled and covered by the '
+                  'theorems but not exercised against the code',
+                  'tools/gen_c10_errors.py (regex level) reads the variants of DialError and of the enums nested in it from src/error.rs and the '
+                  'arms of the match in AddressStore::error_score + the constants of mod scores from address.rs into coq/gen/DialErrors.v (and the '
+                  'names into harness/src/gen_c10_errors.rs); the model interprets the arm table, C10_error_variants_in_sync ties constructor '
+                  'names/order/feature gates to the source, the harness classifies DialError values with exhaustive wildcard-free matches (a new '
+                  'variant stops the build) and checks at start-up that the value it builds for every index path has, by its Debug name, the variant '
+                  'name the source has at that path and that every compiled-in variant has a constructor; an arm the translator cannot read (guard, '
+                  'binding, nested alternative, block body) is reported as a broken tie',
+                  'dial(peer) and dial_address are driven end to end on the in-crate scripted transports (verif.rs); the harness does not call '
+                  "dial(peer) when the peer's store holds an address of a transport that is not installed or one that does not name the peer "
+                  "(reachable only through ill-formed dial results / raw inserts; the manager would wedge the peer in Opening, which is C05's "
+                  'subject) - model and harness apply the same guard; every episode is driven to completion so that the peer is Disconnected again '
+                  '(asserted by the harness)',
                   'two cfg(verif) logging statements inside add_known_address and AddressStore::insert record the HashSet iteration order and the '
                   'evicted records (thread-local, add-only)'],
  'level_text': 'Proof: for every configuration, capacity and history (listen addresses registered at any time, additions with any insertion order '
-               "and eviction choices, dial failures/successes, rediscoveries, held connections, whole dial(peer) episodes) each peer's store holds "
-               'at most MAX_ADDRESSES distinct addresses; everything add_known_address lets through is unchanged, supported, not local w.r.t. the '
-               'listen addresses registered so far and names the peer, and is_local is monotone in the listen set, so every remembered address is '
-               'attributable, dialable and not local w.r.t. the listen addresses registered before the history; every address accepted by '
-               'supported_transport is, over the whole component grammar, parsed by the enabled transport it is routed to with that peer id and a '
-               'specified host; eviction happens only at the bound and removes a minimal-score record not above the newcomer, a newcomer is refused '
-               'only below the minimum; dial results re-score exactly the address used; re-adding known addresses changes nothing; addresses(limit) '
-               'is a non-increasing top-min(limit,n) selection and its validator is sound and satisfiable; when dial(peer) tries addresses, the '
-               'lists given to the transports merge into a valid addresses(limit) selection with limit = max_outgoing_connections minus established '
-               'outbound connections (everything when unlimited), each address goes to the installed transport it is routed to, and the outcome '
-               're-scores exactly the attempts made (failure score for timed-out ones, established score for the one that connected). The model is '
-               'tied to handle.rs/address.rs/mod.rs/limits.rs/listener.rs by a per-operation differential run with store dumps.',
- 'level_note': 'Trusted: Coq kernel, ExtrOcamlBasic extraction, harness and hooks (incl. the scripted transport); IP classification only on the '
-               'mapped ranges; QUIC paths proved on the model but not diffed (feature off); dial(peer) is not called on stores it could wedge on '
-               '(guard, see trusted base); addresses stored through dial_address are outside the model.',
- 'assumptions': ['dial results reported by transports outside dial(peer) episodes concern addresses that were acceptable for that peer (taken from '
-                 'the store) - needed only for attribution of stored addresses, not for the bound',
+               'and eviction choices, dial failures of every kind, successes, raw inserts, rediscoveries, held connections, whole dial(peer) and '
+               "dial_address episodes, public-address changes) each peer's store holds at most MAX_ADDRESSES distinct addresses and every stored "
+               'score stays an i32 (the public bonus saturates at both ends); everything add_known_address lets through is unchanged, supported, not '
+               'local w.r.t. the listen addresses registered so far and names the peer, and is_local is monotone in the listen set, so every '
+               'remembered address is attributable, dialable and not local w.r.t. the listen addresses registered before the history (when '
+               'dial_address is only handed acceptable addresses); without that condition every remembered address still names its peer and is '
+               'parsed with that peer by the enabled transport it is routed to, because dial_address stores only what passes its own check (free '
+               'capacity, not literally a listen address, exact host/tcp[/ws|wss]/p2p or host/udp/quic-v1/p2p shape, transport installed), and both '
+               'checks agree on shapes; every address accepted by supported_transport is, over the whole component grammar, parsed by the enabled '
+               'transport it is routed to with that peer id and a specified host; eviction happens only at the bound and removes a minimal-score '
+               'record not above the newcomer, a newcomer is refused only below the minimum. DialError is modelled variant by variant (26 leaves, '
+               'names/order/feature gates proved equal to the ones extracted from src/error.rs) and error_score is the interpretation of the match '
+               'arms extracted from address.rs: every failure kind maps to a strictly negative i32 (never mistaken for a rediscovery), AddressError '
+               'is the only kind mapped to i32::MIN, the rest to CONNECTION_FAILURE; a failure of any kind / a success on a stored address of any '
+               'score re-scores exactly that address (store level and whole-state frame: other peers, listen/public addresses, held connections '
+               'untouched); re-adding known addresses changes nothing and, while the additions fit under the bound, no addition of any addresses '
+               'changes any recorded score; dial_address on a stored address keeps the record and re-scores exactly it with the result of the dial '
+               '(failure of any kind or success), on a new address with room it is remembered with that score; addresses(limit) is a non-increasing '
+               'top-min(limit,n) selection and its validator is sound and satisfiable; when dial(peer) tries addresses, the lists given to the '
+               'transports merge into a valid addresses(limit) selection with limit = max_outgoing_connections minus established outbound '
+               'connections (everything when unlimited), each address goes to the installed transport it is routed to, and the outcome re-scores '
+               'exactly the attempts made (each failed one to the score of its error kind, established score for the one that connected); public '
+               'addresses always end in /p2p/<local> (add/remove specified), the listen set holds each address with and without /p2p/<local>. The '
+               "places where the manager writes into a peer's store (five, extracted from src/transport/manager/*.rs) are proved to be exactly the "
+               "ones the model's operations cover. The model is tied to handle.rs/address.rs/mod.rs/limits.rs/listener.rs/addresses.rs/error.rs by a "
+               'per-operation differential run with store dumps that drives every constructible DialError variant through every failure path on '
+               'addresses of every score class.',
+ 'level_note': 'Trusted: Coq kernel, ExtrOcamlBasic extraction, harness and hooks (incl. the scripted transport), the regex translators; IP '
+               'classification only on the mapped ranges; QUIC paths and NegotiationError::Quic proved on the model but not diffed (feature off); '
+               'dial(peer) is not called on stores it could wedge on (guard, see trusted base). Observation (not judged a violation: dial_address is '
+               'an explicit dial request, not an address offer): dial_address remembers addresses that add_known_address would refuse - unspecified '
+               'hosts (/ip4/0.0.0.0/...) and loopback / same-port aliases of a listen address under another peer id; the trace oracle demands for '
+               "them only attribution, an enabled transport's parser and not-literally-a-listen-address (witness in corpus/C10/kinds.case). The "
+               "oracle judges scores by sign (failure < 0, success > 0 and equal to CONNECTION_ESTABLISHED); exact values are the model's business "
+               '(diff).',
+ 'assumptions': ['dial results reported by transports outside dial(peer)/dial_address episodes and raw inserts concern addresses that were '
+                 'acceptable for that peer (taken from the store) - needed only for attribution of stored addresses, not for the bound or the i32 '
+                 'range',
+                 'the strong attribution/not-local statement assumes dial_address is handed addresses that add_known_address would accept for the '
+                 'peer they name; the weak one (names the peer, parsed by the enabled transport) needs no such assumption',
                  'not-local is claimed with respect to the listen addresses registered before an address was offered (an address remembered earlier '
                  'is not re-checked by the code when a listen address is registered later)',
                  'HashMap/HashSet iteration order only influences the insertion order of one add_known_address call, the choice among minimal '
                  'records and the order of equal scores (validated, not assumed)',
-                 'usize/i32: scores saturate as i32 (modelled); lengths are unbounded naturals']}
+                 'usize: lengths are unbounded naturals; i32 scores are modelled as Z with saturation written out and proved to stay in range']}
